@@ -29,7 +29,8 @@ def gen_file(rng):
     audio = bytes(rng.randrange(256) for _ in range(rng.choice([0, 5, 40, 200, 700])))
     items = [(b"Title", b"x" * rng.choice([0, 1, 50])), (b"Artist", b"yy")][:rng.choice([1, 2])]
     kind = rng.choice(["none", "tag", "tag", "tag-noheader", "tag+v1", "tag+lyrics+v1", "at-start", "at-start-only", "double-header",
-                       "size-too-big", "size-small", "footer-only-short", "at-start-size-too-big", "at-start-truncated", "v1-only", "lyrics+v1", "tag+junk", "tiny", "bad-lyrics-size"])
+                       "size-too-big", "size-small", "size-small", "at-start-size-small", "footer-only-short", "at-start-size-too-big", "at-start-truncated",
+                       "v1-only", "lyrics+v1", "tag+junk", "tiny", "bad-lyrics-size"])
     t = ape_tag(items)
     if kind == "none":
         data = audio
@@ -60,8 +61,23 @@ def gen_file(rng):
         tt = bytearray(t); struct.pack_into("<L", tt, len(tt) - 32 + 12, len(t) + len(audio) + rng.choice([1, 40, 100000]))
         data = audio + bytes(tt)
     elif kind == "size-small":
-        tt = bytearray(t); struct.pack_into("<L", tt, len(tt) - 32 + 12, rng.choice([0, 1, 31, 32, 33]))
-        data = audio + bytes(tt)
+        # a footer whose size field is below / at / just above the 32 bytes of the footer itself (below: `size - 32` is negative,
+        # refused since the repair of __fill_missing), with and without the "has a header" flag, with and without an ID3v1 block behind
+        tt = bytearray(t if rng.random() < 0.7 else ape_tag(items, with_header=False))
+        struct.pack_into("<L", tt, len(tt) - 32 + 12, rng.choice([0, 1, 8, 30, 31, 32, 33, 64]))
+        data = audio + bytes(tt) + (v1() if rng.random() < 0.3 else b"")
+    elif kind == "at-start-size-small":
+        # a header at offset 0 with a small size field; `__fill_missing` looks for a footer at end - 32 = offset `size`:
+        # size 0 - the header itself is taken for the footer; size 24 - "APETAGEX" in the reserved bytes of the header;
+        # size >= 32 - a footer (or none) at that offset.  With a footer and size < 32 the tag is refused.
+        sz = rng.choice([0, 0, 8, 24, 24, 24, 31, 32, 33, 40, 64])
+        hdr = bytearray(t[:32]); struct.pack_into("<L", hdr, 12, sz)
+        if sz == 24 and rng.random() < 0.7:
+            hdr[24:32] = b"APETAGEX"
+        rest = bytearray(audio + b"some audio that is long enough to keep the end clean" * 3)
+        if sz >= 32 and rng.random() < 0.6:
+            rest[sz - 32:sz - 24] = b"APETAGEX"
+        data = bytes(hdr) + bytes(rest)
     elif kind == "footer-only-short":
         data = t[-32:][:rng.choice([8, 20, 23, 24, 31])] if rng.random() < 0.5 else audio[:3] + t[-32:]
     elif kind == "v1-only":
@@ -76,6 +92,16 @@ def gen_file(rng):
     else:
         data = audio[:rng.choice([0, 1, 7, 8, 31])]
     return data, kind, len(audio)
+
+
+class BufferedLike(io.BytesIO):
+    """io.BytesIO with the one difference of a file opened by name that matters to `_APEv2Data`: read(n) with n < -1 raises
+    ValueError instead of reading to the end.  (Seeks before the start stay clamped as in io.BytesIO: the model's file object.)"""
+
+    def read(self, n=-1):
+        if n is not None and n < -1:
+            raise ValueError("read length must be non-negative or -1")
+        return io.BytesIO.read(self, n)
 
 
 def classify(exc):
@@ -111,6 +137,15 @@ def run(ctx):
             ctx.violation("apefile:%s:hang" % op, "did not finish", case); continue
         out = f.getvalue()
         impl = ("ok v=%s" % hx(out)) if k == "ok" else classify(r)
+        # the same call on an object that refuses read(n < -1) like a file opened by name: no read of `_APEv2Data` has a
+        # negative length (the model's reads take natural numbers), so outcome and bytes are those of io.BytesIO
+        fb = BufferedLike(data)
+        kb, rb = timed(lambda: (t.save(fb) if op == "save" else t.delete(fb)), 20)
+        implb = "hang" if kb == "hang" else (("ok v=%s" % hx(fb.getvalue())) if kb == "ok" else classify(rb))
+        ctx.hist["apefile:buffered-like:" + ("same" if implb == impl else "differs")] += 1
+        if implb != impl:
+            ctx.violation("apefile:%s:negative-read-length" % op, "%s on an object with the read() of a file opened by name: %s (%s), on io.BytesIO: %s"
+                          % (op, implb[:40], str(rb)[:60] if kb == "exc" else "", impl[:40]), case)
         ctx.case(key=("apefile", op, i, len(data)), nontrivial=(k == "ok" and out != data), modelled=True, sample=case if i == 5 else None)
         ctx.hist["apefile:%s:%s" % (op, impl.split(" v=")[0])] += 1
         ctx.hist["apefile:layout:" + kind] += 1
@@ -353,6 +388,11 @@ def run_load_faults(ctx):
         ref = FaultFile(data)
         k0, r0 = timed(lambda: APEv2(ref), 20)
         ncalls = ref.calls; ref_log = list(ref.log)
+        # no read with a negative length (a file opened by name refuses those with ValueError)
+        for l in ref_log:
+            if l.startswith("r-") and l[2:].isdigit() and int(l[2:]) > 1:
+                violation("apefile:load:negative-read-length", "APEv2(fileobj) calls read(%s)" % l[1:],
+                          {"layout": kind, "op": "load", "data": hx(data) if len(data) < 1200 else "len=%d" % len(data)}, li)
         plans = [("none", None, None)] + [("io", i, "io") for i in range(ncalls)]
         for i, l in enumerate(ref_log):
             if l.startswith("r") and l[1:].isdigit() and int(l[1:]) > 0:
